@@ -59,6 +59,7 @@ pub fn replay_kind(kind: &str, j: &serde_json::Value) -> Option<Vec<String>> {
         "none" => Some(j["observed"].as_array().map(|a| a.iter().map(|x| x.as_str().unwrap_or("").to_string()).collect()).unwrap_or_default()),
         "layout" => Some(c20::replay_layout(j)),
         "reuse" => Some(util::replay_reuse(j)),
+        "threads" => Some(c01::replay_threads(j)),
         _ => None,
     }
 }
